@@ -15,6 +15,7 @@ package core
 // lease and every stored lease is tracked by the expiration manager.
 
 import (
+	"github.com/openbao/openbao/v2/internal/helper/namespace"
 	"sync"
 	"encoding/json"
 	"fmt"
@@ -43,7 +44,9 @@ func c06Kinds() []c06Kind {
 	var out []c06Kind
 	// secret-by-batch: the requester of the leased secret is a batch token with a
 	// parent (its leases are indexed under the parent token)
-	for _, n := range []string{"secret", "secret-by-batch", "login", "create", "create-orphan", "create-batch", "create-root"} {
+	// ns:* : the same requests inside a child namespace (lease ids carry the namespace id,
+	// lease, index and token records live in the namespace's storage area)
+	for _, n := range []string{"secret", "secret-by-batch", "login", "create", "create-orphan", "create-batch", "create-root", "ns:secret", "ns:login", "ns:create"} {
 		out = append(out, c06Kind{n, false})
 	}
 	for _, n := range []string{"secret", "login", "create"} {
@@ -69,10 +72,22 @@ func c06Image(t *testing.T, nonTxn bool) (*Image, string) {
 	s.WritePolicy("p06", c06Policy)
 	tok := s.CreateToken(s.Root, map[string]interface{}{"policies": []string{"p06"}, "ttl": "2h"})
 	c06Batch[nonTxn] = s.CreateToken(tok, map[string]interface{}{"policies": []string{"p06"}, "ttl": "1h", "type": "batch"})
+	s.mkNS(t, "ns1/", false)
+	ns1 := s.nsByPath(t, "ns1/")
+	c06NS = ns1
+	s.Must(s.ReqNS(ns1, s.Root, logical.UpdateOperation, "sys/mounts/rec", map[string]interface{}{"type": "rec"}))
+	s.Must(s.ReqNS(ns1, s.Root, logical.UpdateOperation, "sys/auth/ra", map[string]interface{}{"type": "recauth"}))
+	s.Must(s.ReqNS(ns1, s.Root, logical.UpdateOperation, "sys/policies/acl/p06", map[string]interface{}{"policy": c06Policy}))
+	r := s.Must(s.ReqNS(ns1, s.Root, logical.UpdateOperation, "auth/token/create", map[string]interface{}{"policies": []string{"p06"}, "ttl": "2h"}))
+	c06NSTok[nonTxn] = r.Auth.ClientToken
 	return s.Image(), tok
 }
 
-var c06Batch = map[bool]string{}
+var (
+	c06Batch = map[bool]string{}
+	c06NSTok = map[bool]string{}
+	c06NS    *namespace.Namespace
+)
 
 func c06Do(s *Sys, tok string, k c06Kind) c06Out {
 	req := &logical.Request{ClientToken: tok, Connection: &logical.Connection{RemoteAddr: "127.0.0.1"}}
@@ -85,6 +100,15 @@ func c06Do(s *Sys, tok string, k c06Kind) c06Out {
 	case "secret-by-batch":
 		req.ClientToken = c06Batch[s.Opt.NonTxn]
 		req.Operation, req.Path = logical.ReadOperation, "rec/lease/x"
+	case "ns:secret":
+		req.ClientToken = c06NSTok[s.Opt.NonTxn]
+		req.Operation, req.Path = logical.ReadOperation, "rec/lease/x"
+	case "ns:login":
+		req.ClientToken = ""
+		req.Operation, req.Path, req.Data = logical.UpdateOperation, "auth/ra/login", map[string]interface{}{}
+	case "ns:create":
+		req.ClientToken = c06NSTok[s.Opt.NonTxn]
+		req.Operation, req.Path, req.Data = logical.UpdateOperation, "auth/token/create", map[string]interface{}{"policies": []string{"default"}, "ttl": "1h"}
 	case "login":
 		req.ClientToken = ""
 		req.Operation, req.Path, req.Data = logical.UpdateOperation, "auth/ra/login", map[string]interface{}{}
@@ -100,7 +124,11 @@ func c06Do(s *Sys, tok string, k c06Kind) c06Out {
 	case "create-batch":
 		req.Operation, req.Path, req.Data = logical.UpdateOperation, "auth/token/create", map[string]interface{}{"policies": []string{"default"}, "ttl": "1h", "type": "batch"}
 	}
-	resp, err := s.Core.HandleRequest(rootCtx(), req)
+	ctx := rootCtx()
+	if strings.HasPrefix(k.Name, "ns:") {
+		ctx = namespace.ContextWithNamespace(ctx, c06NS)
+	}
+	resp, err := s.Core.HandleRequest(ctx, req)
 	o := c06Out{ok: OK(resp, err), errTxt: ErrText(resp, err)}
 	if !o.ok || resp == nil {
 		return o
@@ -290,7 +318,7 @@ func TestVerifC06(t *testing.T) {
 			if kind.Name != "create-batch" && len(ids1) <= len(ids0) {
 				res.Violate("c06:no-lease-for-handed-out-credential", fmt.Sprintf("%s: request succeeded fault-free but no lease record was added", label), map[string]interface{}{"kind": kind, "nonTxn": nonTxn, "k": 0})
 			}
-			if strings.HasPrefix(kind.Name, "secret") && !kind.Wrap && len(idx1) <= len(idx0) {
+			if strings.Contains(kind.Name, "secret") && !kind.Wrap && len(idx1) <= len(idx0) {
 				res.Violate("c06:no-index-for-leased-secret", fmt.Sprintf("%s: request succeeded fault-free but no token->lease index entry was added", label), map[string]interface{}{"kind": kind, "nonTxn": nonTxn, "k": 0})
 			}
 			if msg := trackingInvariant(s0); msg != "" {
@@ -329,7 +357,7 @@ func TestVerifC06(t *testing.T) {
 					if kind.Name != "create-batch" && len(idsA) <= len(idsB) {
 						res.Violate("c06:fault:credential-without-lease", fmt.Sprintf("%s, op %d [%s] failed: the client still received its %s but no lease record exists", label, k, what, kind.Name), rp)
 					}
-					if strings.HasPrefix(kind.Name, "secret") && !kind.Wrap && len(idxA) <= len(idxB) {
+					if strings.Contains(kind.Name, "secret") && !kind.Wrap && len(idxA) <= len(idxB) {
 						res.Violate("c06:fault:secret-without-index", fmt.Sprintf("%s, op %d [%s] failed: the client received the secret but the token->lease index entry is missing", label, k, what), rp)
 					}
 				} else if k > regEnd {
@@ -348,7 +376,7 @@ func TestVerifC06(t *testing.T) {
 							res.Violate("c06:fault:partial-lease-records", fmt.Sprintf("%s, op %d [%s] failed: the client got an error but lease/index records remain: %v %v", label, k, what, extra, extraIdx), rp)
 						}
 					}
-					if tok0 != "" && !strings.HasPrefix(kind.Name, "secret") && kind.Name != "create-batch" && s.Usable(tok0) {
+					if tok0 != "" && !strings.Contains(kind.Name, "secret") && kind.Name != "create-batch" && s.Usable(tok0) {
 						res.Violate("c06:fault:usable-token-after-error", fmt.Sprintf("%s, op %d [%s] failed: the client got an error but the token minted by the request is usable", label, k, what), rp)
 					}
 				}
